@@ -319,6 +319,11 @@ def _run(rep, tier, seed, focus, acts_for_sim):
             replay_records(rep, recs, focus, "sort-ties", sample_cap=40000, seed=seed)
         finally:
             containers_world.POOL_TIES = False
+    if focus == "dict":
+        # equality of groups whose Vector members differ in their number of components: a copy of the pool Vector, a third
+        # component assigned to one of the two, both inserted under the same key, compared (5 steps)
+        recs = tlc_emit(rep, "eq-vectors", ["ocopy", "vset", "set", "eq"], 5, keys=("a",), objs=[5, 7, 11])
+        replay_records(rep, recs, focus, "eq-vectors", sample_cap=60000 if tier == "quick" else None, seed=seed)
     if focus in ("rows", "dict"):
         # the shape gate over long insert / pop / delete / clear histories (emptying and refilling a group with another shape)
         recs = tlc_emit(rep, "gate-depth5", ["set", "pop", "del", "clear"], 5 if tier == "quick" else 6, objs=[1, 3, 4])
